@@ -145,3 +145,68 @@ def _self_env(it, fn):
     if fn.cls is not None:
         return {"self": Obj(fn.cls, tag="self")}
     return {}
+
+
+def accumulator_scope_obligations(model, rep, fn, clause, rule="S25"):
+    """`outer.append(inner)` inside a loop, where `inner` is itself filled by `.append/.extend` inside that loop, needs a fresh `inner` per
+    iteration (an assignment to `inner` inside the loop): otherwise every entry of `outer` is the same list holding the items of all iterations."""
+    import ast as _ast
+    from ..repo import walk_no_nested as _walk, norm_src as _ns
+    n = 0
+    for lp in _walk(fn.node):
+        if not isinstance(lp, _ast.For):
+            continue
+        inner_nodes = list(_ast.walk(lp))
+        filled = {c.func.value.id for c in inner_nodes if isinstance(c, _ast.Call) and isinstance(c.func, _ast.Attribute) and c.func.attr in ("append", "extend")
+                  and isinstance(c.func.value, _ast.Name)}
+        for c in inner_nodes:
+            if isinstance(c, _ast.Call) and isinstance(c.func, _ast.Attribute) and c.func.attr == "append" and isinstance(c.func.value, _ast.Name) and \
+                    len(c.args) == 1 and isinstance(c.args[0], _ast.Name) and c.args[0].id in filled and c.args[0].id != c.func.value.id:
+                inner = c.args[0].id
+                # is the call directly in this loop (not in a deeper loop that would be handled on its own)?
+                deeper = [l2 for l2 in inner_nodes if isinstance(l2, _ast.For) and l2 is not lp and any(x is c for x in _ast.walk(l2))]
+                if deeper:
+                    continue
+                fresh = any(isinstance(s, (_ast.Assign, _ast.AnnAssign)) and any(isinstance(t, _ast.Name) and t.id == inner for t in
+                            (s.targets if isinstance(s, _ast.Assign) else [s.target])) for s in inner_nodes)
+                n += 1
+                rep.instance(rule, fn.loc(c))
+                rep.ob(rule, fn.anchor, f"the per-iteration list `{inner}` collected by `{_ns(c)}` is created anew in every iteration of the loop",
+                       fresh, "" if fresh else f"`{inner}` is created once before the loop: every entry of `{c.func.value.id}` is the same list and holds the items of all "
+                       f"iterations (each group gets the data of all groups)", node=c, fn=fn, clause=clause)
+    return n
+
+
+def swapped_argument_obligations(model, rep, fn, call, clause, rule="ARGS"):
+    """A bare name passed positionally to a repository callable that has a parameter of exactly that name must land on that parameter
+    (``f(stack, mask, n_clusters, n_components)`` against ``def f(stack, mask, n_components, n_clusters)`` silently swaps the two)."""
+    import ast as _ast
+    from ..repo import norm_src as _ns
+    kind, tg = model.resolve_call(fn, call)
+    if kind == "class" and tg:
+        init = tg[0].find_method("__init__") if hasattr(tg[0], "find_method") else None
+        if init is None:
+            return 0
+        callee = init
+    elif kind == "repo" and tg:
+        callee = tg[0]
+    else:
+        return 0
+    params = callee.param_names()
+    if params and params[0] in ("self", "cls"):
+        params = params[1:]
+    bad = []
+    for i, a in enumerate(call.args):
+        if isinstance(a, _ast.Starred) or i >= len(params):
+            break
+        if isinstance(a, _ast.Name) and a.id != params[i] and a.id in params:
+            bad.append(f"argument `{a.id}` is passed in the position of parameter `{params[i]}` of {callee.short}")
+    for k in call.keywords:
+        if k.arg and isinstance(k.value, _ast.Name) and k.value.id != k.arg and k.value.id in params and k.arg in params:
+            other = [k2 for k2 in call.keywords if k2.arg == k.value.id]
+            if other and isinstance(other[0].value, _ast.Name) and other[0].value.id == k.arg:
+                bad.append(f"keywords `{k.arg}` and `{k.value.id}` receive each other's value")
+    rep.instance(rule, fn.loc(call))
+    rep.ob(rule, fn.anchor, f"the arguments of `{_ns(call.func)}(...)` reach the parameters they are named after", not bad, "; ".join(bad), node=call, fn=fn, clause=clause,
+           stmt=f"arguments of {_ns(call.func)}")
+    return 1
